@@ -1,22 +1,166 @@
 import Kanzi.Model.Container
+import Kanzi.Proofs.BitsLemmas
 namespace Kanzi.Container
 open Kanzi.Bits
 
-theorem parseFrame_frameBits (p rest : Bits) (h0 : 0 < p.length) (hmax : p.length < 2 ^ 34) :
-    parseFrame (frameBits p ++ rest) = Parsed.frame p rest := by sorry
+/-! ### width of the length field -/
 
-theorem parseFrame_endMarker (rest : Bits) : parseFrame (endMarker ++ rest) = Parsed.endMark rest := by sorry
+theorem lenWidth_ge (len : Nat) : 3 ≤ lenWidth len := by
+  unfold lenWidth; split <;> omega
+
+theorem lt_two_pow_lenWidth (len : Nat) : len < 2 ^ lenWidth len := by
+  unfold lenWidth
+  split
+  · omega
+  · have h1 : len / 8 < 2 ^ ((len / 8).log2 + 1) := Nat.lt_log2_self
+    have h2 : 2 ^ ((len / 8).log2 + 4) = 8 * 2 ^ ((len / 8).log2 + 1) := by
+      rw [show (len / 8).log2 + 4 = ((len / 8).log2 + 1) + 3 from rfl, Nat.pow_add]; omega
+    omega
+
+theorem lenWidth_le (len : Nat) (h : len < 2 ^ 34) : lenWidth len ≤ 34 := by
+  unfold lenWidth
+  split
+  · omega
+  · have hq : len / 8 ≠ 0 := by omega
+    have : (len / 8).log2 < 31 := (Nat.log2_lt hq).2 (by omega)
+    omega
+
+/-! ### one frame-shaped header -/
+
+theorem parseFrame_short (bs : Bits) (h : bs.length < 5) : parseFrame bs = .eos := by
+  simp [parseFrame, h]
+
+theorem parseFrame_short_len (a : Nat) (r1 : Bits) (ha : a < 32) (h : r1.length < a + 3) :
+    parseFrame (natBits a 5 ++ r1) = .eos := by
+  have h5 : (natBits a 5 ++ r1).take 5 = natBits a 5 := take_append_len _ _ _ (natBits_length _ _)
+  have d5 : (natBits a 5 ++ r1).drop 5 = r1 := drop_append_len _ _ _ (natBits_length _ _)
+  have hv : bitsNat (natBits a 5) = a := bitsNat_natBits_of_lt _ _ (by omega)
+  unfold parseFrame
+  simp only [h5, d5, hv]
+  rw [if_neg (by simp), if_pos h]
+
+theorem parseFrame_header (a len : Nat) (tail : Bits) (ha : a < 32) (hlen : len < 2 ^ (a + 3)) :
+    parseFrame (natBits a 5 ++ natBits len (a + 3) ++ tail) =
+      if len = 0 then .endMark tail
+      else if len > 2 ^ 34 then .tooBig
+      else if tail.length < len then .eos
+      else .frame (tail.take len) (tail.drop len) := by
+  rw [List.append_assoc]
+  have h5 : (natBits a 5 ++ (natBits len (a + 3) ++ tail)).take 5 = natBits a 5 :=
+    take_append_len _ _ _ (natBits_length _ _)
+  have d5 : (natBits a 5 ++ (natBits len (a + 3) ++ tail)).drop 5 = natBits len (a + 3) ++ tail :=
+    drop_append_len _ _ _ (natBits_length _ _)
+  have hv : bitsNat (natBits a 5) = a := bitsNat_natBits_of_lt _ _ (by omega)
+  have hl : (natBits len (a + 3) ++ tail).take (a + 3) = natBits len (a + 3) :=
+    take_append_len _ _ _ (natBits_length _ _)
+  have dl : (natBits len (a + 3) ++ tail).drop (a + 3) = tail :=
+    drop_append_len _ _ _ (natBits_length _ _)
+  have hvl : bitsNat (natBits len (a + 3)) = len := bitsNat_natBits_of_lt _ _ hlen
+  unfold parseFrame
+  simp only [h5, d5, hv, hl, dl, hvl]
+  rw [if_neg (by simp), if_neg (by simp)]
+
+/-- a cut anywhere inside the two header fields gives `eos` -/
+theorem parseFrame_take_header (a len k : Nat) (tail : Bits) (ha : a < 32) (hk : k < 5 + (a + 3)) :
+    parseFrame ((natBits a 5 ++ natBits len (a + 3) ++ tail).take k) = .eos := by
+  by_cases h5 : k < 5
+  · apply parseFrame_short
+    simp only [List.length_take]; omega
+  · rw [List.append_assoc, List.take_append, List.take_of_length_le (by simp; omega)]
+    apply parseFrame_short_len _ _ ha
+    simp only [List.length_take, natBits_length]; omega
+
+/-! ### frames and the end marker -/
+
+theorem frameBits_eq (p : Bits) :
+    frameBits p =
+      natBits (lenWidth p.length - 3) 5 ++ natBits p.length ((lenWidth p.length - 3) + 3) ++ p := by
+  have := lenWidth_ge p.length
+  rw [Nat.sub_add_cancel this]; rfl
+
+theorem frameBits_length (p : Bits) : (frameBits p).length = 5 + lenWidth p.length + p.length := by
+  simp [frameBits]; omega
+
+theorem endMarker_eq : endMarker = natBits 0 5 ++ natBits 0 (0 + 3) ++ [] := by
+  simp [endMarker]
+
+theorem endMarker_length : endMarker.length = 8 := by
+  simp [endMarker]
+
+theorem parseFrame_frameBits (p rest : Bits) (h0 : 0 < p.length) (hmax : p.length < 2 ^ 34) :
+    parseFrame (frameBits p ++ rest) = Parsed.frame p rest := by
+  have hge := lenWidth_ge p.length
+  have hle := lenWidth_le p.length hmax
+  have hlt := lt_two_pow_lenWidth p.length
+  rw [frameBits_eq, List.append_assoc _ p rest,
+    parseFrame_header _ _ _ (by omega) (by rw [Nat.sub_add_cancel hge]; exact hlt)]
+  rw [if_neg (by omega), if_neg (by omega), if_neg (by simp)]
+  simp
+
+theorem parseFrame_endMarker (rest : Bits) : parseFrame (endMarker ++ rest) = Parsed.endMark rest := by
+  rw [endMarker_eq, List.append_nil, parseFrame_header 0 0 rest (by omega) (by omega)]
+  simp
+
+/-- a strict prefix of a frame gives `eos` -/
+theorem parseFrame_take_frameBits (p : Bits) (k : Nat) (h0 : 0 < p.length) (hmax : p.length < 2 ^ 34)
+    (hk : k < (frameBits p).length) : parseFrame ((frameBits p).take k) = .eos := by
+  have hge := lenWidth_ge p.length
+  have hle := lenWidth_le p.length hmax
+  have hlt := lt_two_pow_lenWidth p.length
+  rw [frameBits_length] at hk
+  rw [frameBits_eq]
+  by_cases hh : k < 5 + (lenWidth p.length - 3 + 3)
+  · exact parseFrame_take_header _ _ _ _ (by omega) hh
+  · rw [List.take_append, List.take_of_length_le (by simp; omega),
+      parseFrame_header _ _ _ (by omega) (by rw [Nat.sub_add_cancel hge]; exact hlt)]
+    rw [if_neg (by omega), if_neg (by omega), if_pos]
+    simp only [List.length_take, List.length_append, natBits_length]; omega
+
+/-- a strict prefix of the end marker gives `eos` -/
+theorem parseFrame_take_endMarker (k : Nat) (hk : k < 8) : parseFrame (endMarker.take k) = .eos := by
+  rw [endMarker_eq]
+  exact parseFrame_take_header 0 0 k [] (by omega) (by omega)
+
+/-! ### whole streams -/
 
 theorem parseFrames_stream (payloads : List Bits) (pad : Bits)
     (h : ∀ p ∈ payloads, 0 < p.length ∧ p.length < 2 ^ 34) :
     parseFrames (payloads.length + 1) (payloads.flatMap frameBits ++ endMarker ++ pad) =
-      payloads.map Item.payload ++ [Item.endMark] := by sorry
+      payloads.map Item.payload ++ [Item.endMark] := by
+  induction payloads with
+  | nil => simp [parseFrames, parseFrame_endMarker]
+  | cons p ps ih =>
+    have hp := h p (by simp)
+    have ih' := ih (fun q hq => h q (by simp [hq]))
+    simp only [List.flatMap_cons, List.length_cons, List.map_cons, List.cons_append,
+      List.append_assoc] at ih' ⊢
+    rw [parseFrames, parseFrame_frameBits p _ hp.1 hp.2]
+    simp only [ih']
 
 theorem parseFrames_prefix (payloads : List Bits) (k : Nat)
     (h : ∀ p ∈ payloads, 0 < p.length ∧ p.length < 2 ^ 34)
     (hk : k < (payloads.flatMap frameBits ++ endMarker).length) :
     ∃ m, m ≤ payloads.length ∧
       parseFrames (payloads.length + 1) ((payloads.flatMap frameBits ++ endMarker).take k) =
-        (payloads.take m).map Item.payload ++ [Item.truncated] := by sorry
+        (payloads.take m).map Item.payload ++ [Item.truncated] := by
+  induction payloads generalizing k with
+  | nil =>
+    refine ⟨0, Nat.le_refl _, ?_⟩
+    simp only [List.flatMap_nil, List.nil_append, endMarker_length] at hk ⊢
+    simp [parseFrames, parseFrame_take_endMarker k hk]
+  | cons p ps ih =>
+    have hp := h p (by simp)
+    simp only [List.flatMap_cons, List.length_cons, List.append_assoc, List.length_append] at hk ⊢
+    by_cases hc : k < (frameBits p).length
+    · refine ⟨0, Nat.zero_le _, ?_⟩
+      rw [List.take_append, show k - (frameBits p).length = 0 by omega, List.take_zero,
+        List.append_nil, parseFrames, parseFrame_take_frameBits p k hp.1 hp.2 hc]
+      simp
+    · obtain ⟨m, hm, hpm⟩ := ih (k - (frameBits p).length) (fun q hq => h q (by simp [hq]))
+        (by simp only [List.length_append]; omega)
+      refine ⟨m + 1, by omega, ?_⟩
+      rw [List.take_append, List.take_of_length_le (by omega), parseFrames,
+        parseFrame_frameBits p _ hp.1 hp.2]
+      simp only [hpm, List.take_succ_cons, List.map_cons, List.cons_append]
 
 end Kanzi.Container
